@@ -95,6 +95,16 @@ public:
         }
         return "";
     }
+    // the same for the handles RETURNED BY create* in the chained operations of this session (ops::created)
+    std::string creation_handles(const obs::Node &fresh_tree) {
+        std::map<std::string, std::string> fresh = obs::own_lines(fresh_tree), made = obs::own_lines(ops::created, oopt);
+        for (auto &kv : made) {
+            auto it = fresh.find(kv.first);
+            if (it == fresh.end()) continue;           // deleted since: the handle is out of contract
+            if (it->second != kv.second) return kv.first.substr(0, kv.first.find(':')) + "|creation handle: " + kv.second + "fresh handle: " + it->second;
+        }
+        return "";
+    }
     uint64_t key_of(const std::string &canon_text, bool fresh) { return vf::fnv(obs::symbolize(canon_text) + (fresh ? "|F" : "|S")); }
     // State key.  The observation alone identifies a state only at a session boundary (nothing but the file carries
     // state then).  Inside a session the library object may carry hidden state (caches), which depends on WHICH
